@@ -197,7 +197,7 @@ def conformance(c, batches, hooks=True, hook_limit=None):
         hk = os.path.join(out, "hook.json")
         if hooks and os.path.exists(hk):
             # the interleaving search is expensive for runs in which many workers die and are replaced
-            lim = min(hook_limit or 10**9, 20) if name == "capacity" else hook_limit
+            lim = min(hook_limit or 10**9, 20) if name in ("capacity", "prompt") else hook_limit
             acc, rej, skipped = validate_hooks(c, hk, name, limit=lim)
             c.cov["hook_traces_accepted"] = c.cov.get("hook_traces_accepted", 0) + acc
             c.cov["traces_validated_against_impl"] += acc
